@@ -1,2 +1,19 @@
     // ===== src/decoder.rs =====
     pub(crate) fn len_decode<R: RangeReader>(c: &mut LengthCoder, pos_state: usize, rc: &mut RangeDecoder<R>) -> i32 { c.decode(pos_state, rc) }
+
+    /// scaffolding: an LZMADecoder with tagged coder and length decoders; the literal decoder stays zeroed (not used
+    /// by decode_match / decode_rep_match); must be forgotten, never dropped
+    pub(crate) fn mk_decoder_tagged(pb: usize, state: u8, reps: [i32; crate::REPS]) -> LZMADecoder {
+        unsafe {
+            let mut m = core::mem::MaybeUninit::<LZMADecoder>::zeroed();
+            let p = m.as_mut_ptr();
+            core::ptr::addr_of_mut!((*p).coder).write(crate::vk::plain_coder(pb, state, reps));
+            core::ptr::addr_of_mut!((*p).match_len_decoder).write(LengthCoder::new());
+            core::ptr::addr_of_mut!((*p).rep_len_decoder).write(LengthCoder::new());
+            m.assume_init()
+        }
+    }
+    pub(crate) fn dec_rep_match<R: RangeReader>(d: &mut LZMADecoder, ps: u32, rc: &mut RangeDecoder<R>) -> u32 { d.decode_rep_match(ps, rc) }
+    pub(crate) fn dec_match<R: RangeReader>(d: &mut LZMADecoder, ps: u32, rc: &mut RangeDecoder<R>) -> u32 { d.decode_match(ps, rc) }
+    pub(crate) fn dec_coder(d: &LZMADecoder) -> (&[i32; crate::REPS], u8) { (&d.coder.reps, d.coder.state.get()) }
+    pub(crate) fn dec_parts(d: &LZMADecoder) -> (&crate::LZMACoder, &LengthCoder, &LengthCoder) { (&d.coder, &d.match_len_decoder, &d.rep_len_decoder) }
